@@ -178,7 +178,7 @@ func exploreEvents(c *rt.Ctx, sc PoolScenario, bound, maxExecs int, onExec func(
 		for i, d := range r.Trace {
 			if i >= len(prefix) {
 				for alt := 1; alt < d.N; alt++ {
-					if dev+1 > bound {
+					if dev+1 > bound || (sc.AltCap > 0 && alt > sc.AltCap) {
 						break
 					}
 					np := append(append([]int{}, r.Choices()[:i]...), alt)
@@ -289,6 +289,57 @@ func runC06(c *rt.Ctx) {
 				big := wire.Op{Kind: "set", Key: "c0-big", VGen: true, VLen: 3000, VSeed: 5, Flags: 77}
 				big2 := wire.Op{Kind: "append", Key: "c2-h", VGen: true, VLen: 2500, VSeed: 6}
 				run(PoolScenario{Harness: "C06", BatchSize: bs, PoolSize: 2, Prep: append(append(append([]wire.Op{}, p0...), p1...), p2...), Callers: []wire.Op{big, b, big2}, StallBytes: 700})
+			}
+		}
+	}
+	// many callers at once (8, 16, 64), each on keys of its own, batches of 4 and 8 on 1, 2 and 4
+	// pooled connections: the default event order and every single deviation from it (with 16 and 64
+	// callers: at every decision the three alternatives nearest to the default)
+	for _, nc := range []int{8, 16, 64} {
+		for _, bs := range []int{4, 8} {
+			for _, ps := range []int{1, 2, 4} {
+				for rot := 0; rot < 3; rot++ {
+					if !c.Thorough() && (rot > 0 || (nc == 64 && ps == 2)) {
+						continue
+					}
+					item++
+					if !c.Mine(item) || c.Expired() {
+						continue
+					}
+					var callers, prep []wire.Op
+					for i := 0; i < nc; i++ {
+						ci, pi := poolCommands(i)
+						callers = append(callers, ci[(i*7+3+rot*5)%len(ci)])
+						prep = append(prep, pi...)
+					}
+					sc := PoolScenario{Harness: "C06", BatchSize: bs, PoolSize: ps, Prep: prep, Callers: callers}
+					if nc > 8 {
+						sc.AltCap = 3 // at every decision the default and its three nearest alternatives
+					}
+					c.Crumb(fmt.Sprintf("callers=%d batch=%d pool=%d", nc, bs, ps), sc)
+					limit := 3000
+					if c.Thorough() {
+						limit = 20000
+					}
+					n, trunc := exploreEvents(c, sc, 1, limit, func(r *PoolResult) bool {
+						c.Eval(1)
+						c.Trace(1)
+						c.Trans(int64(len(r.Trace)))
+						fs := poolOracle(sc, r)
+						for _, f := range fs {
+							scc := sc
+							scc.Choices = r.Choices()
+							c.Violation(f.Sig, f.What+"\nevents: "+r.Describe(), scc)
+						}
+						return len(fs) == 0
+					})
+					if trunc {
+						c.Cap(fmt.Sprintf("many-caller scenarios: %d event sequences run per scenario, single-deviation level not completed", limit))
+					}
+					c.Distinct(fmt.Sprintf("many|%d|%d|%d|%d", nc, bs, ps, rot))
+					c.Nontrivial(fmt.Sprintf("many|%d|%d|%d|%d", nc, bs, ps, rot))
+					c.Add("n_many_caller_event_sequences", int64(n))
+				}
 			}
 		}
 	}
